@@ -140,6 +140,20 @@ def run(ctx):
         r1, r2 = Node.is_equal(na, nb), Node.is_equal(nb, na)
         if r1 is not False or r2 is not False:
             fails.append({"case": {"a": a, "edit": f}, "what": f"copy and original still compare equal ({r1}, {r2}) after editing {f} of one node"})
+    # (3) distinct objects that carry the SAME id strings (what loading one JSON document twice produces): ids are not compared
+    for _ in range(N // 4):
+        a = rand_tree(rng, maxdepth=rng.choice([1, 2, 3]))
+        impl.reset()
+        na = impl.build(a)                 # assigns the ids into the term
+        b = copy.deepcopy(a)
+        desc = one_edit(b, rng) if rng.random() < 0.5 else None
+        nb = impl.build(b)
+        extra += 1
+        r1, r2 = Node.is_equal(na, nb), Node.is_equal(nb, na)
+        want = desc is None
+        if r1 is not want or r2 is not want:
+            fails.append({"case": {"a": a, "b": b, "same_ids": True, "edit": desc},
+                          "what": f"two distinct trees carrying the same id strings ({'equal' if want else 'one edit: ' + str(desc)}): is_equal = {r1}/{r2}, expected {want}"})
     for _ in range(N // 3):
         a = rand_tree(rng, maxdepth=2)
         b = copy.deepcopy(a); gen.strip_ids(b)
